@@ -317,6 +317,16 @@ def audit(ctx, rng, count, nsett):
             box = rm.gen_box(rng, n) if rng.random() < 0.6 else {'lin': [[[common.frac_str(F(rng.randint(-1, 1))) for _ in range(n)], '0']]}
             if 'lin' in box and all(F(a) == 0 for a in box['lin'][0][0]):
                 box['lin'][0][0][0] = '1'
+        if t % 8 == 4:
+            # disjoint supports on a domain where the term the heuristic reduction drops IS needed: a e^{x1} - b e^{x2} (+ d) over
+            # {x2 <= x1 <= 1, x2 >= -1}; the exact choice heuristic_reduction=False is given once globally, once to the constraint itself
+            cs = [F(rng.choice([1, 2])), F(-rng.choice([1, 2]))]
+            rows = [[F(1), F(0)], [F(0), F(1)]]
+            if rng.random() < 0.5:
+                rows.append([F(0), F(0)])
+                cs.append(F(rng.choice([1, 3])))
+            f = rm.sig_leaf(rows, cs)
+            box = {'lin': [[['-1', '1'], '0'], [['1', '0'], '1'], [['0', '-1'], '1']]}
         case = {'f': f, 'box': box}
         if t % 8 == 1:
             case['ill'] = True
@@ -326,6 +336,11 @@ def audit(ctx, rng, count, nsett):
             # the options that read the covers of OTHER terms: always part of the sample for these instances
             setts = [sm.DEFAULTS, dict(sm.DEFAULTS, sum_age_force_equality=True), dict(sm.DEFAULTS, kernel_basis=True),
                      dict(sm.DEFAULTS, sum_age_force_equality=True, presolve_trivial_age_cones=True)] + setts[1:nsett - 3]
+        if t % 8 == 4:
+            form = rng.choice(['dual', 'dual', 'primal'])
+            audit_case(ctx, rng, case, form, [dict(sm.DEFAULTS, heuristic_reduction=False), dict(sm.DEFAULTS, heuristic_reduction=False, compact_dual=False)],
+                       variant=('hand', 'override'))
+            continue
         if t % 8 == 2:
             form = 'primal'
             if nsett < 32:
